@@ -262,7 +262,7 @@ def main(tier):
     core = interrupt_core()
     if tier == "quick":
         core = core[seed() % 2 :: 2]
-    n = 100 if tier == "quick" else 1500
+    n = 250 if tier == "quick" else 1500
     rand = gen_dynamic.generate(seed() * 7907 + 13, n, "interrupt")
     ccore = compose_interrupt_core()
     if tier == "quick":
